@@ -1894,7 +1894,13 @@ class Ctx:
         if spec is None:
             raise ContractMismatch(f"{self.fname}: loop {k} ({loop_header(s)}) has no invariant in the contract")
         if spec.header is not None and spec.header != loop_header(s):
-            # not fatal: the invariant is keyed by ordinal and still has to hold for the loop that is there
+            # a different iterable expression is not fatal: the invariant is keyed by ordinal and still has to hold
+            # for the loop that is there.  A different loop KIND or loop variable means the code was restructured:
+            # the invariant was written for another loop -> the contract cannot be applied (never a violation)
+            hdr = spec.header.strip()
+            if not hdr.startswith("for ") or hdr[4:].split(" in ")[0].strip() != ast.unparse(s.target):
+                raise ContractMismatch(f"{self.fname}: loop {k} was restructured: contract was written for "
+                                       f"{spec.header!r}, code has {loop_header(s)!r}")
             self.notes.append(f"loop {k} header differs from the contract's note: {loop_header(s)!r}")
         if isinstance(it, tuple) and it and isinstance(it[0], str) and it[0] == "range":
             ra = it[1:]
@@ -2004,6 +2010,9 @@ class Ctx:
                     return
             raise Unsupported(f"while loop at line {s.lineno}: more than 256 concrete iterations")
         if spec.header is not None and spec.header != loop_header(s):
+            if not spec.header.strip().startswith("while "):
+                raise ContractMismatch(f"{self.fname}: loop {k} was restructured: contract was written for "
+                                       f"{spec.header!r}, code has {loop_header(s)!r}")
             self.notes.append(f"loop {k} header differs from the contract's note: {loop_header(s)!r}")
         mod = assigned_names(s.body) | set(spec.extra_modifies)
         mod |= {nm for nm in loaded_names(s.body) if isinstance(self.env.get(nm), dict)}
